@@ -407,6 +407,24 @@ func runC09(c *Ctx) {
 					if substitutesPayload(succ) {
 						continue
 					}
+					// path-sensitive confirmation: the error may be re-tested through a phi
+					// (err == nil && ... { err = other }; if err != nil { return err })
+					seed := map[ssa.Value]bool{}
+					if rv, neg := resolveCond(iff.Cond, []*ssa.BasicBlock{iff.Block()}); rv != nil {
+						seed[rv] = (nonNilSucc[i] == 0) != neg
+					}
+					cps, okEnum := EnumPathsSeed(succ, iff.Block(), seed, func(in ssa.Instruction) bool { return badRet(in) || handled(in) }, 0)
+					if okEnum {
+						confirmed := false
+						for _, cp := range cps {
+							if badRet(cp.End) {
+								confirmed = true
+							}
+						}
+						if !confirmed {
+							continue
+						}
+					}
 					good, w = false, path
 				}
 			}
